@@ -161,9 +161,9 @@ def derive_bottom(rng, top: dict, platform: str, small=None, kmax=3) -> dict:
 
     bot = {"action": top["action"] if rng.random() < 0.85 else ("deny" if top["action"] == "permit" else "permit")}
     if top["proto"] == 0:
-        bot["proto"] = rng.choice([6, 17, 0, 1, 89])
+        bot["proto"] = rng.choice([6, 17, 0, 1, 89, 115])
     else:
-        bot["proto"] = top["proto"] if rng.random() < 0.8 else rng.choice([0, 6, 17, 1])
+        bot["proto"] = top["proto"] if rng.random() < 0.8 else rng.choice([0, 6, 17, 1, 115, 112, 251])
     bot["src"], bot["src_items"] = rel(top["src"]), None
     bot["dst"], bot["dst_items"] = rel(top["dst"]), None
     for side in ("sport", "dport"):
@@ -206,14 +206,14 @@ def gen_related_pair(rng, platform: str, *, groups: bool, small=None, kmax=3) ->
 
     action_t = rng.choice(["permit", "deny"])
     action_b = action_t if rng.random() < 0.85 else ("deny" if action_t == "permit" else "permit")
-    proto_t = rng.choice([6, 6, 6, 17, 0, 0, 1, 47])
+    proto_t = rng.choice([6, 6, 6, 17, 0, 0, 1, 47, 112, 250])
     roll = rng.random()
     if proto_t == 0:
-        proto_b = rng.choice([6, 17, 0, 1, 89])
+        proto_b = rng.choice([6, 17, 0, 1, 89, 115])
     elif roll < 0.8:
         proto_b = proto_t
     else:
-        proto_b = rng.choice([0, 6, 17, 1])
+        proto_b = rng.choice([0, 6, 17, 1, 115, 112, 251])
     st, sb = addr_pair()
     dt, db = addr_pair()
     top = {"action": action_t, "proto": proto_t}
